@@ -201,6 +201,59 @@ TText ==
 \* per live point that has the field plus the entry node 1; edges lead to
 \* existing nodes other than their source; out-degree <= R except for the
 \* entry node; the recorded maximum bounds all ids in use
+\* The transition of the persisted graph over one batch, as Graph.tla allows it
+\* (B = before, A = after; D = updated and removed nodes; New = inserted and
+\* re-inserted nodes).  A rejected batch leaves the graph as it was.  A batch
+\* that only removes nodes is judged exactly (one-level re-linking, rescue of
+\* nodes without inbound edge at the entry node), and so is the insertion of a
+\* single node (out-edges, then one back edge per chosen neighbour, pruned at
+\* the bound); for the rest the edges of every surviving node must come from
+\* where the design can take them.
+GraphOf(ns) == [n \in {ns[k][1] : k \in DOMAIN ns} |-> AsSet(ns[CHOOSE k \in DOMAIN ns : ns[k][1] = n][2])]
+GraphStep ==
+  LET B == GraphOf(E.prev)
+      A == GraphOf(E.nodes)
+      Ins == DOMAIN A \ DOMAIN B
+      Del == DOMAIN B \ DOMAIN A
+      Upd == IF E.kind = "update" THEN AsSet(E.touched) \cap DOMAIN A \cap DOMAIN B ELSE {}
+      D == Upd \cup Del
+      New == Ins \cup Upd
+      valid == DOMAIN B \ D
+      Cand(n) == (B[n] \ D) \cup ((UNION {B[b] : b \in B[n] \cap D}) \ D)
+      \* (the scan, and with it the rescue, only runs when something is updated or removed)
+      toSave == IF D = {} THEN {} ELSE {m \in valid \ {1} : \A v \in valid : m \notin B[v]}
+      Sv(n) == IF n = 1 THEN toSave ELSE {}
+      old == (DOMAIN A \cap DOMAIN B) \ Upd
+  IN  IF E.ok = 0 THEN \A n \in DOMAIN A \cup DOMAIN B : n \in DOMAIN A /\ n \in DOMAIN B /\ A[n] = B[n]
+      ELSE
+        \* a placed node has out-edges as soon as there is somebody to point to
+        /\ \A n \in New \ {1} : (1 \in DOMAIN B \/ Cardinality(Ins) > 2) => A[n] # {}
+        \* where the edges of a surviving node can come from
+        /\ \A n \in old :
+              A[n] \subseteq (B[n] \ D) \cup Cand(n) \cup New \cup (IF n = 1 THEN (IF Ins = {} THEN toSave ELSE DOMAIN A) ELSE {})
+        \* no change without a cause
+        /\ \A n \in old :
+              (A[n] # B[n] /\ B[n] \cap D = {} /\ A[n] \cap New = {} /\ ~(n = 1 /\ toSave # {}))
+                 => (New # {} /\ Cardinality(B[n]) + Cardinality(New) > E.R /\ A[n] \subseteq B[n] /\ A[n] # {})
+        \* removal only: exact
+        /\ (New = {}) =>
+              \A n \in old :
+                 IF B[n] \cap D = {} THEN A[n] = B[n] \cup Sv(n)
+                 ELSE IF Cardinality(Cand(n)) > E.R
+                      THEN /\ Sv(n) \subseteq A[n] /\ A[n] \subseteq (Cand(n) \ {n}) \cup Sv(n)
+                           /\ Cardinality(A[n] \ Sv(n)) <= E.R
+                           /\ (A[n] \ Sv(n) # {} \/ A[n] \cap (Cand(n) \ {n}) # {})
+                      ELSE A[n] = (Cand(n) \ {n}) \cup Sv(n)
+        \* one new node on an existing graph: exact
+        /\ (Cardinality(Ins) = 1 /\ D = {} /\ 1 \in DOMAIN B) =>
+              LET a == CHOOSE x \in Ins : TRUE
+              IN  /\ A[a] \subseteq DOMAIN B /\ Cardinality(A[a]) <= E.R
+                  /\ \A n \in old :
+                        IF n \notin A[a] THEN A[n] = B[n]
+                        ELSE IF Cardinality(B[n]) + 1 > E.R
+                             THEN A[n] \subseteq B[n] \cup {a} /\ A[n] # {} /\ Cardinality(A[n]) <= E.R
+                             ELSE A[n] = B[n] \cup {a}
+
 TGraph ==
   /\ IsEvent("Graph") /\ Obs
   /\ LET want  == {1} \cup {nodeOf[i] : i \in {j \in DOMAIN pts : HasIx(S, pts[j], E.p)}}
@@ -216,6 +269,7 @@ TGraph ==
                    /\ n \notin AsSet(es)
                    /\ (n # 1 => Len(es) <= E.R)
          /\ \A n \in nodes : n <= Max2(E.max, 1)
+  /\ (E.hasprev = 1 => GraphStep)
 
 \* What-if trials (C07): the batch is tried on a copy of the database under an
 \* injected fault / kill; Fork saves the model state, Restore brings it back.
